@@ -1070,4 +1070,189 @@ theorem jacobianV_eq (F : Fit) (g : List Rat) :
   | nil => rfl
   | cons m ms ih => simp only [List.map_cons, List.zipWith_cons_cons, ih]
 
+/-! ## Action sequences and the length of the residual vector -/
+
+/-- **add_noise_free_data_then_refit_unchanged.** The sequence of user actions "add a further dataset, fit again" on
+    a fit whose table holds the generating values `gen`: if the dataset is accepted, introduces no new parameter and
+    all data (old and new) is noise-free data of `gen`, then for any optimiser that stays in its box and does not
+    increase the sum of squares, and identifiable free parameters, the second fit returns the table of the rebuilt fit
+    unchanged — it still holds `gen`. -/
+theorem add_noise_free_data_then_refit_unchanged (r : Bool) (opt : Opt) (fs : List ModelFn) (F : Fit)
+    (pre post : List ModelData) (m : ModelData) (hF : F.models = pre ++ m :: post)
+    (hkeys : F.table.map (·.1) = globalNames F.models)
+    (gen : String → Rat) (hgen : ∀ e ∈ F.table, e.2.value = gen e.1)
+    (name : String) (ov : List (String × Target)) (nx ny : List Bool) (xs ys : List Nat)
+    (tr : List (String × Target))
+    (hname : m.data.any (fun d => d.name == name) = false) (hlen : nx.length = ny.length)
+    (htr : parseTransformation (m.params.map (·.1)) ov = some tr)
+    (hold : ∀ n ∈ tr.filterMap (·.2.name?), n ∈ F.table.map (·.1)) :
+    let F1 := (F.addData pre.length name ov nx ny xs ys).1
+    (∀ m' ∈ (F1.rebuild r).models, CondInj m') →
+    (∀ mf ∈ (F1.rebuild r).models.zip fs, ∀ d' ∈ mf.1.data, NoiseFree mf.2 (localByName d'.trans gen) d') →
+    ∀ (lb ub : List (Option Rat)) (x0 x : List Rat), (F1.fit r opt).2 = .done lb ub x0 x →
+    inBox lb ub x = true →
+    sumSq ((F1.rebuild r).objective fs x) ≤ sumSq ((F1.rebuild r).objective fs x0) →
+    (∀ z, inBox lb ub z = true → (∀ ρ ∈ (F1.rebuild r).objective fs z, ρ = 0) → z = x0) →
+    (F1.fit r opt).1 = F1.rebuild r ∧ ∀ e ∈ (F1.fit r opt).1.table, e.2.value = gen e.1 := by
+  intro F1 hinj hnf lb ub x0 x hdone hbox hdesc hident
+  have e1 : F1 = { F with models := (withData pre m post
+      ⟨name, tr, countValid nx ny, keepValid nx ny xs, keepValid nx ny ys⟩) } := by
+    show (F.addData pre.length name ov nx ny xs ys).1 = _
+    rw [addData_ok F pre post m hF name ov nx ny xs ys tr hname hlen htr]
+  have e2 : F1.rebuild r = Fit.build r { F with models := (withData pre m post
+      ⟨name, tr, countValid nx ny, keepValid nx ny xs, keepValid nx ny ys⟩) } := by
+    rw [e1]; unfold Fit.rebuild; rw [dirty_withData]; rfl
+  obtain ⟨hg, hz⟩ := more_noise_free_data_keeps_optimum r fs F pre post m hF hkeys gen hgen
+    ⟨name, tr, countValid nx ny, keepValid nx ny xs, keepValid nx ny ys⟩ hold
+  rw [← e2] at hg hz
+  have h := refit_from_optimum_unchanged r opt fs F1 (hz hinj hnf) lb ub x0 x hdone hbox hdesc hident
+  exact ⟨h.2, by rw [h.2]; exact hg⟩
+
+/-- the worked instance after `d3` was added (through `add_data`) and the fit rebuilt -/
+def exG3 : Fit := ⟨[⟨[("M/a", none), ("M/b", none)], [exD1, exD2, exD3], true⟩],
+  [("M/a", ⟨1, none, none, false⟩), ("M/b", ⟨2, none, none, false⟩), ("M/b2", ⟨5, none, none, false⟩)], true⟩
+
+theorem ex3_rebuild :
+    (((exG 1 2 5).addData 0 "d3" [("M/b", .name "M/b2")] [false] [false] [4611686018427387904]
+      [4622382067542392832]).1).rebuild false = exG3 := by decide +kernel
+
+theorem ex3_conds : generateConditions ⟨[("M/a", none), ("M/b", none)], [exD1, exD2, exD3], true⟩
+    ["M/a", "M/b", "M/b2"] =
+    [(⟨[some 0, some 1], [none, none], [0, 1], [0, 1]⟩, [exD1]),
+     (⟨[some 0, some 2], [none, none], [0, 1], [0, 2]⟩, [exD2, exD3])] := by decide +kernel
+
+theorem ex3_objective (a b c : Rat) :
+    exG3.objective [polyFn] [a, b, c] = [1 - a, 3 - (a + b), 1 - a, 6 - (a + c), 11 - (a + c * 2)] := by
+  unfold Fit.objective Fit.residualAt
+  simp only [exG3, Fit.fitted, Fit.values, List.map, Bool.not_false, writeBack, List.zipWith,
+    ModelData.residual, List.flatten]
+  rw [ex3_conds]
+  obtain ⟨h1, h0, h3, h6⟩ := ex_bits
+  have h2 : bitsToRat 4611686018427387904 = 2 ∧ bitsToRat 4622382067542392832 = 11 := by decide +kernel
+  simp [residualOf, dataResidual, getLocalParams, exD1, exD2, exD3, h1, h0, h3, h6, h2.1, h2.2, polyFn, polyAux]
+
+/-- non-vacuity of `add_noise_free_data_then_refit_unchanged`: the worked instance at (1, 2, 5), `d3` added through
+    `add_data` with the override `M/b → M/b2`, refit with an optimiser that stays at its start -/
+example :
+    let F1 := ((exG 1 2 5).addData 0 "d3" [("M/b", .name "M/b2")] [false] [false] [4611686018427387904]
+      [4622382067542392832]).1
+    (F1.fit false (fun _ _ x0 => .ok x0)).1 = exG3 := by
+  intro F1
+  have hdone : (F1.fit false (fun _ _ x0 => .ok x0)).2 =
+      .done [none, none, none] [none, none, none] [1, 2, 5] [1, 2, 5] := by decide +kernel
+  have h := add_noise_free_data_then_refit_unchanged false (fun _ _ x0 => .ok x0) [polyFn] (exG 1 2 5) [] []
+    (exM true) rfl (by decide +kernel) exGen (by decide +kernel) "d3" [("M/b", .name "M/b2")] [false] [false]
+    [4611686018427387904] [4622382067542392832] [("M/a", .name "M/a"), ("M/b", .name "M/b2")]
+    (by decide) rfl (by decide) (by decide +kernel)
+    (by
+      show ∀ m' ∈ (F1.rebuild false).models, CondInj m'
+      rw [ex3_rebuild]
+      intro m' hm'
+      simp only [exG3, List.mem_cons, List.not_mem_nil, or_false] at hm'
+      subst hm'
+      intro a ha b hb
+      simp only [List.mem_cons, List.not_mem_nil, or_false] at ha hb
+      rcases ha with rfl | rfl | rfl <;> rcases hb with rfl | rfl | rfl <;> decide)
+    (by
+      show ∀ mf ∈ (F1.rebuild false).models.zip [polyFn], ∀ d' ∈ mf.1.data, NoiseFree mf.2 (localByName d'.trans exGen) d'
+      rw [ex3_rebuild]
+      intro mf hmf d hd
+      simp only [exG3, List.zip_cons_cons, List.zip_nil_right, List.mem_cons, List.not_mem_nil, or_false] at hmf
+      subst hmf
+      simp only [List.mem_cons, List.not_mem_nil, or_false] at hd
+      rcases hd with rfl | rfl | rfl <;> (unfold NoiseFree; decide +kernel))
+    _ _ _ _ hdone (by decide) (le_refl _)
+    (by
+      show ∀ z, inBox _ _ z = true → (∀ ρ ∈ (F1.rebuild false).objective [polyFn] z, ρ = 0) → z = [1, 2, 5]
+      intro z hz h0
+      obtain ⟨a, b, c, rfl⟩ := ex_three _ _ z hz rfl
+      rw [ex3_rebuild, ex3_objective] at h0
+      simp only [List.mem_cons, List.not_mem_nil, or_false, forall_eq_or_imp, forall_eq] at h0
+      obtain ⟨e1, e2, _, e4, _⟩ := h0
+      have ha : a = 1 := by linarith
+      have hb : b = 2 := by linarith
+      have hc : c = 5 := by linarith
+      rw [ha, hb, hc])
+  exact h.1.trans ex3_rebuild
+
+/-- **residual_length.** The residual vector the fit evaluates has exactly one entry per valid sample pair of every
+    dataset of every model (`n_residuals`), whatever the grouping into conditions: no dataset is left out, none is
+    evaluated twice. -/
+theorem model_residual_length (f : ModelFn) (m : ModelData) (uniq : List String) (g : List Rat)
+    (hok : ∀ d ∈ m.data, DataOk d) : (m.residual f uniq g).length = m.nResiduals := by
+  unfold ModelData.residual generateConditions
+  refine (length_residualOf_filterMap f uniq g (groups m) ?_).trans ?_
+  · intro grp hgrp d hd
+    cases grp with
+    | nil => cases hd
+    | cons r rest => exact hok d (mem_groups m _ r d hgrp List.mem_cons_self hd).2.1
+  · unfold groups ModelData.nResiduals
+    rw [List.map_map]
+    exact nsum_by_key m.data (fun d => (unique (m.data.map condString)).idxOf (condString d)) _ _
+      (fun d hd => List.idxOf_lt_length_of_mem ((mem_unique _ _).mpr (List.mem_map_of_mem hd)))
+
+theorem residual_length (fs : List ModelFn) (F : Fit) (g : List Rat) (hfs : fs.length = F.models.length)
+    (hok : ∀ m ∈ F.models, ∀ d ∈ m.data, DataOk d) : (F.residualAt fs g).length = F.nResiduals := by
+  unfold Fit.residualAt Fit.nResiduals
+  rw [List.length_flatten, zipWith_eq_map_zip', List.map_map]
+  have : ∀ mf ∈ F.models.zip fs, ((fun l : List Rat => l.length) ∘ fun p : ModelData × ModelFn =>
+      p.1.residual p.2 (F.table.map (·.1)) g) mf = mf.1.nResiduals := by
+    intro mf hmf
+    exact model_residual_length mf.2 mf.1 _ g (hok _ (List.of_mem_zip hmf).1)
+  rw [List.map_congr_left this]
+  have hz : (F.models.zip fs).map (fun mf => mf.1.nResiduals) = F.models.map (·.nResiduals) := by
+    rw [show (fun mf : ModelData × ModelFn => mf.1.nResiduals) = (fun m : ModelData => m.nResiduals) ∘ Prod.fst from rfl,
+      ← List.map_map, List.map_fst_zip (by omega)]
+  rw [hz]
+
+/-- `add_data` ESTABLISHES `DataOk`: when the caller hands over as many samples as mask entries, every dataset of the
+    fit holds exactly `npoints` pairs afterwards (accepted or refused). -/
+theorem addData_dataOk (F : Fit) (mi : Nat) (name : String) (ov : List (String × Target)) (nx ny : List Bool)
+    (xs ys : List Nat) (hx : xs.length = nx.length) (hy : ys.length = ny.length)
+    (hok : ∀ m ∈ F.models, ∀ d ∈ m.data, DataOk d) :
+    ∀ m ∈ (F.addData mi name ov nx ny xs ys).1.models, ∀ d ∈ m.data, DataOk d := by
+  unfold Fit.addData
+  cases hm : F.models[mi]? with
+  | none => exact hok
+  | some m =>
+    simp only
+    have hmm : m ∈ F.models := List.mem_of_getElem? hm
+    split
+    · exact hok
+    · split
+      · exact hok
+      · rename_i hlen
+        have hlen' : nx.length = ny.length := by simpa using hlen
+        cases htr : parseTransformation (m.params.map (·.1)) ov with
+        | none =>
+          simp only
+          intro m' hm' d hd
+          rcases List.mem_or_eq_of_mem_set hm' with h | h
+          · exact hok m' h d hd
+          · subst h; exact hok m hmm d hd
+        | some tr =>
+          simp only
+          intro m' hm' d hd
+          rcases List.mem_or_eq_of_mem_set hm' with h | h
+          · exact hok m' h d hd
+          · subst h
+            simp only [List.mem_append, List.mem_cons, List.not_mem_nil, or_false] at hd
+            rcases hd with hd | rfl
+            · exact hok m hmm d hd
+            · exact ⟨keepValid_length nx ny xs hlen' hx, keepValid_length nx ny ys hlen' (hy.trans hlen'.symm)⟩
+
+/-- non-vacuity of `residual_length` / `addData_dataOk`: the worked instance (its datasets hold as many samples as
+    `npoints` says), before and after a third dataset went through `add_data` -/
+example (g : List Rat) :
+    ((exG 0 0 0).residualAt [polyFn] g).length = 4 ∧
+    (∀ m ∈ ((exG 1 2 5).addData 0 "d3" [("M/b", .name "M/b2")] [false] [false] [4611686018427387904]
+      [4622382067542392832]).1.models, ∀ d ∈ m.data, DataOk d) := by
+  have hok : ∀ v1 v2 v3, ∀ m ∈ (exG v1 v2 v3).models, ∀ d ∈ m.data, DataOk d := by
+    intro v1 v2 v3 m hm d hd
+    simp only [exG, exM, List.mem_cons, List.not_mem_nil, or_false] at hm
+    subst hm
+    simp only [List.mem_cons, List.not_mem_nil, or_false] at hd
+    rcases hd with rfl | rfl <;> exact ⟨rfl, rfl⟩
+  exact ⟨residual_length [polyFn] (exG 0 0 0) g rfl (hok 0 0 0), addData_dataOk _ _ _ _ _ _ _ _ rfl rfl (hok 1 2 5)⟩
+
 end Verif.C14
